@@ -14,7 +14,16 @@ func main() {
 		fmt.Fprintln(os.Stderr, "usage: harness gen <id> <tier> <seed>")
 		os.Exit(2)
 	}
+	applyASLimit()
 	switch os.Args[1] {
+	case "one":
+		// run a single op (used for isolation: the parent treats a crash as the op's outcome)
+		ex, ok := executors[os.Args[2]]
+		if !ok {
+			fmt.Println("unknown-op")
+			return
+		}
+		fmt.Println(safe(func() string { return ex(os.Args[3:]) }))
 	case "gen":
 		id, tier := os.Args[2], os.Args[3]
 		seed, _ := strconv.ParseUint(os.Args[4], 10, 64)
